@@ -26,6 +26,15 @@ pub struct Scoping;
 
 const MOD_SEGS: &[&str] = &["game", "world", "ui", "core", "net"];
 
+/// Decoys of odd-numbered modules are named so that the contested name is a suffix of theirs (`Pre1Thing`).
+fn decoy_name(i: usize, name: &str) -> String {
+    if i % 2 == 1 {
+        format!("Pre{i}{name}")
+    } else {
+        format!("Decoy{i}")
+    }
+}
+
 pub fn gen_case(t: &mut Tape) -> Case {
     let w = if t.chance(1, 2) { 8 } else { 4 };
     let name = t.pick(&["Thing", "u32", "Other", "f64", "void"]).to_string();
@@ -72,7 +81,7 @@ pub fn gen_case(t: &mut Tape) -> Case {
         if t.chance(1, 3) {
             m.items.push(Item::Type(TypeDef {
                 vis: true,
-                name: format!("Decoy{i}"),
+                name: decoy_name(i, &name),
                 packed: true,
                 fields: vec![Field::new("bytes", Ty::Unk(40 + i as u64))],
                 ..Default::default()
@@ -107,6 +116,15 @@ pub fn gen_case(t: &mut Tape) -> Case {
     for _ in 0..n_uses {
         let j = 1 + t.below((nm - 1) as u64) as usize;
         let mut p = paths[j].clone();
+        // now and then the observer imports its own definition by name (`use m0::Name;` inside m0), which
+        // takes part in the last-one-wins rule like any other by-name import
+        let has_local = prog.mods[obs].items.iter().any(|i| i.name() == name);
+        if has_local && t.chance(1, 5) {
+            let mut own = paths[obs].clone();
+            own.push(name.clone());
+            prog.mods[obs].uses.push(own);
+            continue;
+        }
         match t.below(5) {
             0 | 1 => {
                 // by-name import (may dangle when that module does not define the name)
@@ -115,7 +133,7 @@ pub fn gen_case(t: &mut Tape) -> Case {
             2 | 3 => {}
             _ => {
                 // by-name import of the decoy
-                p.push(format!("Decoy{j}"));
+                p.push(decoy_name(j, &name));
             }
         }
         prog.mods[obs].uses.push(p);
@@ -182,7 +200,7 @@ impl Prop for Scoping {
         "C11/scoping".into()
     }
     fn rule(&self) -> String {
-        "2-5 modules with paths of depth 1-3; the same short name (also a built-in's name) defined in several of them as packed types / extern types of pairwise distinct sizes; modules added in the given order (observer first) or shuffled; an observer module with an optional local definition (which may itself mention the name in pointer fields) and 0-5 interleaved `use path::Name` / `use path` imports (some dangling, some for a decoy). Oracle: reference binding (by-name import, last wins > built-in > same module > module imports in order) decides; the resolved size of `Obs` equals size(D)*3 + pointer width, and the emitted field, pointee, array element, parameter and return (impl function, virtual function slot and wrapper) and extern-value types are exactly the fully qualified path of D (syn); no binding => Err. Non-trivial: >= 2 candidate definitions reachable through different rules".into()
+        "2-5 modules with paths of depth 1-3; the same short name (also a built-in's name) defined in several of them as packed types / extern types of pairwise distinct sizes; modules added in the given order (observer first) or shuffled; an observer module with an optional local definition (which may itself mention the name in pointer fields) and 0-5 interleaved `use path::Name` / `use path` imports (some dangling, some for a decoy whose name may end in the contested name, some for the observer's own definition). Oracle: reference binding (by-name import, last wins > built-in > same module > module imports in order) decides; the resolved size of `Obs` equals size(D)*3 + pointer width, and the emitted field, pointee, array element, parameter and return (impl function, virtual function slot and wrapper) and extern-value types are exactly the fully qualified path of D (syn); no binding => Err. Non-trivial: >= 2 candidate definitions reachable through different rules".into()
     }
     fn gen(&self, t: &mut Tape) -> Case {
         gen_case(t)
